@@ -486,9 +486,12 @@ func (x *execution) drain() {
 			return
 		}
 		x.before(r)
+		// bookkeeping of the effect happens BEFORE the driver goroutine is released: nothing can kill the
+		// process between the two, and the driver must never run concurrently with harness code (the
+		// application reads the committed height)
+		x.after(r)
 		x.inhand = nil
 		r.release <- verdict{}
-		x.after(r)
 	}
 }
 
